@@ -3,8 +3,9 @@
  * ops (one result line each):
  *   parse fmt=<f|auto> abc=<text|amino|dna|rna|guess> src=<mem|file|allfile|mmap|stream> ps=<pagesize|0> [sfx=<suffix>] hex=<bytes>
  *       open the bytes, read alignments until a non-OK status (at most 64), dump each MSA, validate each.
- *   rt fmt=<f> abc=<text|amino|dna|rna> <msa fields>
- *       build the MSA through the public API, write it, read it back (declared + autodetected), re-write.
+ *   rt fmt=<f> abc=<text|amino|dna|rna> [via=direct [nw=<namewidth> rpl=<residues per line>]] <msa fields>
+ *       build the MSA through the public API, write it (esl_msafile_Write dispatch, or via=direct the format's own
+ *       esl_msafile_<fmt>_Write; nw/rpl = ESL_MSAFILE_FMTDATA of the PHYLIP writers), read it back (declared + autodetected), re-write.
  *
  * dump syntax (blank-free), see dump_msa(): {n=..;alen=..;dig=..;hasw=..;nm=h,h;sq=h,h;...optional fields only when present}
  *   h = '~' NULL, '-' empty string, lowercase hex otherwise
@@ -355,10 +356,30 @@ static ESL_MSA *build_msa(void)
   return m;
 }
 
+/* the format's own writer, called directly (what esl_msafile_Write() dispatches to); <fd> only reaches the PHYLIP writers */
+static int write_direct(FILE *fp, ESL_MSA *m, int fmt, ESL_MSAFILE_FMTDATA *fd)
+{
+  switch (fmt) {
+  case eslMSAFILE_STOCKHOLM:   return esl_msafile_stockholm_Write(fp, m, eslMSAFILE_STOCKHOLM);
+  case eslMSAFILE_PFAM:        return esl_msafile_stockholm_Write(fp, m, eslMSAFILE_PFAM);
+  case eslMSAFILE_A2M:         return esl_msafile_a2m_Write      (fp, m);
+  case eslMSAFILE_PSIBLAST:    return esl_msafile_psiblast_Write (fp, m);
+  case eslMSAFILE_SELEX:       return esl_msafile_selex_Write    (fp, m);
+  case eslMSAFILE_AFA:         return esl_msafile_afa_Write      (fp, m);
+  case eslMSAFILE_CLUSTAL:     return esl_msafile_clustal_Write  (fp, m, eslMSAFILE_CLUSTAL);
+  case eslMSAFILE_CLUSTALLIKE: return esl_msafile_clustal_Write  (fp, m, eslMSAFILE_CLUSTALLIKE);
+  case eslMSAFILE_PHYLIP:      return esl_msafile_phylip_Write   (fp, m, eslMSAFILE_PHYLIP,  fd);
+  case eslMSAFILE_PHYLIPS:     return esl_msafile_phylip_Write   (fp, m, eslMSAFILE_PHYLIPS, fd);
+  default:                     return eslEINVAL;
+  }
+}
+static int g_direct;                    /* rt via=direct */
+static ESL_MSAFILE_FMTDATA *g_wfd;      /* rt nw= rpl= : format options of the PHYLIP writers (NULL = none) */
+
 static unsigned char *write_msa(ESL_MSA *m, int fmt, int64_t *ret_n, int *ret_status)
 {
   FILE *fp = tmpfile(); unsigned char *b; long n;
-  *ret_status = esl_msafile_Write(fp, m, fmt);
+  *ret_status = g_direct ? write_direct(fp, m, fmt, g_wfd) : esl_msafile_Write(fp, m, fmt);
   fflush(fp); n = ftell(fp); rewind(fp);
   b = malloc((size_t) n + 1);
   if (n > 0 && fread(b, 1, (size_t) n, fp) != (size_t) n) { perror("fread"); exit(3); }
@@ -379,8 +400,18 @@ static void op_rt(void)
   ESL_ALPHABET *abc = NULL, **byp = NULL; char errbuf[eslERRBUFSIZE];
   ESL_MSA *m = build_msa(), *m2 = NULL, *m3 = NULL; ESL_MSAFILE *afp = NULL;
   unsigned char *b1 = NULL, *b2 = NULL; int64_t n1 = 0, n2 = 0; char *d2 = NULL, *d3 = NULL;
+  const char *via = h_arg("via");
+  ESL_MSAFILE_FMTDATA wfd, rfd, afd, *rfdp = NULL;
   sb_reset();
   if (!as) as = "text";
+  /* via=direct: the per-format writer instead of the esl_msafile_Write() dispatch; nw=/rpl= (PHYLIP, direct only): the writer's
+   * ESL_MSAFILE_FMTDATA options; the declared-format reader is then opened with the same name width */
+  g_direct = (via && !strcmp(via, "direct")); g_wfd = NULL;
+  esl_msafile_fmtdata_Init(&wfd); esl_msafile_fmtdata_Init(&rfd); esl_msafile_fmtdata_Init(&afd);
+  if (g_direct && (h_arg("nw") || h_arg("rpl")) && (fmt == eslMSAFILE_PHYLIP || fmt == eslMSAFILE_PHYLIPS)) {
+    wfd.namewidth = (int) h_argi("nw", 0); wfd.rpl = (int) h_argi("rpl", 0); g_wfd = &wfd;
+    rfd.namewidth = wfd.namewidth; rfdp = &rfd;
+  }
   if (strcmp(as, "text")) {
     abc = esl_alphabet_Create(abc_type(as)); byp = &abc;
     errbuf[0] = 0;
@@ -394,7 +425,7 @@ static void op_rt(void)
   if (wst != eslOK) goto DONE;
   /* declared format */
   g_stream = NULL; g_path[0] = 0;
-  status = esl_msafile_OpenMem(byp, (char *) b1, n1, fmt, NULL, &afp);
+  status = esl_msafile_OpenMem(byp, (char *) b1, n1, fmt, rfdp, &afp);
   sb_printf(" open=%s", h_status(status)); note_exception();
   if (status == eslOK) {
     status = esl_msafile_Read(afp, &m2);
@@ -413,7 +444,7 @@ static void op_rt(void)
   }
   if (afp) { esl_msafile_Close(afp); afp = NULL; }
   /* autodetected format */
-  status = esl_msafile_OpenMem(byp, (char *) b1, n1, eslMSAFILE_UNKNOWN, NULL, &afp);
+  status = esl_msafile_OpenMem(byp, (char *) b1, n1, eslMSAFILE_UNKNOWN, rfdp ? &afd : NULL, &afp);   /* a nonstandard PHYLIP name width needs somewhere to be stored */
   sb_printf(" aopen=%s", h_status(status)); note_exception();
   if (status == eslENOFORMAT) {   /* esl_msafile_OpenMem() drops the afp (and its message) on enoformat: ask the guesser itself why */
     ESL_BUFFER *gbf = NULL; int gfmt = 0; char gerr[eslERRBUFSIZE]; ESL_MSAFILE_FMTDATA gfd;
@@ -427,6 +458,7 @@ static void op_rt(void)
   }
   if (status == eslOK) {
     sb_printf(" afmt=%s", fmt_name(afp->format));
+    if (rfdp) sb_printf(" anw=%d", afp->fmtd.namewidth);
     status = esl_msafile_Read(afp, &m3);
     sb_printf(" ard=%s", h_status(status)); note_exception();
     if (status == eslOK && m3) {
@@ -439,13 +471,14 @@ static void op_rt(void)
   /* guessed alphabet on library-written output (informational: must not crash; type reported) */
   if (byp) {
     ESL_ALPHABET *g = NULL;
-    status = esl_msafile_OpenMem(&g, (char *) b1, n1, fmt, NULL, &afp);
+    status = esl_msafile_OpenMem(&g, (char *) b1, n1, fmt, rfdp, &afp);
     sb_printf(" gopen=%s", h_status(status)); note_exception();
     if (status == eslOK) sb_printf(" gabc=%s", abc_name(afp->abc));
     if (afp) { esl_msafile_Close(afp); afp = NULL; }
     if (g) esl_alphabet_Destroy(g);
   }
  DONE:
+  g_direct = 0; g_wfd = NULL;
   if (m) esl_msa_Destroy(m); if (m2) esl_msa_Destroy(m2); if (m3) esl_msa_Destroy(m3);
   if (abc) esl_alphabet_Destroy(abc);
   free(b1); free(b2); free(d2); free(d3);
